@@ -276,6 +276,8 @@ func c07(r *core.Run) {
 	r.Rule("P2", "subject templates: every subject handed to an event funnel is system.reset, system.tokenReset, conn.<V>.token, event.<R>.<E> or the request's reply subject, where R is the routed resource name, E a valid constant token or a parameter validated by isValidPart, V validated by isValidPart (the request's own cid exempt); the token validator rejects empty, <33, >126, '.', '*', '>', '?'", 16)
 	r.Rule("P3", "envelopes: every struct marshalled on a reply path has exactly one of result/resource/error (no omitempty) plus optional meta,omitempty; Error has string code and message; every static payload literal parses as JSON with exactly one of those keys, and error literals carry a declared Code* constant", 14)
 	r.Rule("P8", "payload provenance: every payload handed to a reply funnel is a package-level literal (checked by P3) or the output of json.Marshal on its err==nil edge (P5); no reply is assembled by string concatenation around handler-supplied text, which would bypass JSON escaping", 8)
+	r.Rule("P9", "a custom event cannot pose as a protocol event (shared with C08.O4): the custom event method panics, before it publishes, on every reserved name (change, delete, add, remove, patch, reaccess, unsubscribe, query) and on names the token validator rejects - otherwise a handler's payload is published on event.<rid>.query (or .change, ...) without the fields documented for that event", 9)
+	c08CustomEventValidity(r, "P9")
 	r.Rule("P4", "meta only for HTTP: status/header are written only by the two setters, behind the !isHTTP->panic and replied->panic guards; metaObject is built only by meta(), which returns nil when nothing is set; envelope Meta fields are fed only from meta() (or nil)", 6)
 	r.Rule("P5", "marshal fallback: a json.Marshal result is published only on its err==nil edge; the error edge substitutes an error reply; where that reply is built with ToError, ToError maps by a plain type assertion (no unwrapping), so a marshal failure is always system.internalError", 4)
 	r.Rule("P6", "pre-response: both Timeout methods reject negative durations by panic before publishing and publish exactly timeout:\"<decimal ms>\" on the reply subject", 2)
@@ -677,43 +679,7 @@ func c07(r *core.Run) {
 	}
 
 	// ---- P8 ----------------------------------------------------------------
-	for fn := range funnelFns {
-		pi := -1
-		for i, prm := range fn.Params {
-			if isByteSlice(prm.Type()) {
-				pi = i
-			}
-		}
-		if pi < 0 {
-			continue
-		}
-		for _, c := range callsTo(root, fn) {
-			if pi >= len(c.Common().Args) {
-				continue
-			}
-			bad := ""
-			n := 0
-			for _, av := range paramArgs(p, c.Common().Args[pi], 0) {
-				for _, lf := range valueLeaves(av, nil, 0) {
-					n++
-					v := core.Strip(lf.V)
-					if _, ok := loadedGlobal(v); ok {
-						continue
-					}
-					if ex, ok := v.(*ssa.Extract); ok && ex.Index == 0 {
-						if mc, ok := ex.Tuple.(*ssa.Call); ok && mc.Common().StaticCallee() != nil && mc.Common().StaticCallee().String() == "encoding/json.Marshal" {
-							continue
-						}
-					}
-					if _, isPrm := v.(*ssa.Parameter); isPrm {
-						continue // forwarded by a function with no static caller here; its callers are judged at their own sites
-					}
-					bad = valDesc(lf.V)
-				}
-			}
-			r.Check(bad == "" && n > 0, "P8", core.FuncName(c.Parent()), "reply-payload<-literal-or-json.Marshal", p.InstrPos(c), "the payload is a package-level literal or the encoder's output", "a reply payload is assembled by hand ("+bad+"): text supplied by the handler is not JSON-escaped, so the response can be malformed or carry different data")
-		}
-	}
+	c07PayloadProvenance(r, "P8", funnelFns, root)
 
 	// ---- P6 ----------------------------------------------------------------
 	nT := 0
@@ -1203,6 +1169,60 @@ func c07Meta(r *core.Run, root []*ssa.Function) {
 				good, why := okSrc(st.Val, 0)
 				r.Check(good, "P4", core.FuncName(fn), "store("+f.String()+")<-meta()", p.InstrPos(st), "envelope meta flows from meta() or nil", "envelope meta is fed from "+why)
 			}
+		}
+	}
+}
+
+// replyFunnels: the reply funnel of each request type.
+func replyFunnels(p *core.Prog) map[*ssa.Function]bool {
+	out := map[*ssa.Function]bool{}
+	for _, tn := range requestTypes {
+		if _, setters, ok := flagOf(p, "", tn); ok && len(setters) == 1 {
+			out[replyFunnel(p, setters[0])] = true
+		}
+	}
+	return out
+}
+
+// c07PayloadProvenance: every payload handed to a reply funnel is a
+// package-level literal or the encoder's output (C07.P8; shared with C18.V9).
+func c07PayloadProvenance(r *core.Run, rule string, funnelFns map[*ssa.Function]bool, root []*ssa.Function) {
+	p := r.P
+	for fn := range funnelFns {
+		pi := -1
+		for i, prm := range fn.Params {
+			if isByteSlice(prm.Type()) {
+				pi = i
+			}
+		}
+		if pi < 0 {
+			continue
+		}
+		for _, c := range callsTo(root, fn) {
+			if pi >= len(c.Common().Args) {
+				continue
+			}
+			bad := ""
+			n := 0
+			for _, av := range paramArgs(p, c.Common().Args[pi], 0) {
+				for _, lf := range valueLeaves(av, nil, 0) {
+					n++
+					v := core.Strip(lf.V)
+					if _, ok := loadedGlobal(v); ok {
+						continue
+					}
+					if ex, ok := v.(*ssa.Extract); ok && ex.Index == 0 {
+						if mc, ok := ex.Tuple.(*ssa.Call); ok && mc.Common().StaticCallee() != nil && mc.Common().StaticCallee().String() == "encoding/json.Marshal" {
+							continue
+						}
+					}
+					if _, isPrm := v.(*ssa.Parameter); isPrm {
+						continue // forwarded by a function with no static caller here; its callers are judged at their own sites
+					}
+					bad = valDesc(lf.V)
+				}
+			}
+			r.Check(bad == "" && n > 0, rule, core.FuncName(c.Parent()), "reply-payload<-literal-or-json.Marshal", p.InstrPos(c), "the payload is a package-level literal or the encoder's output", "a reply payload is assembled by hand ("+bad+"): text supplied by the handler is not JSON-escaped, so the response can be malformed or carry different data")
 		}
 	}
 }
